@@ -142,7 +142,11 @@ def encEntriesK : List Entry → List Str → List Str
   | e :: r, k :: ks => e.list :: e.cls :: renderJ e.name :: renderJ e.url :: renderOpt e.parent :: k :: encEntriesK r ks
   | _, _ => []
 
-def baseOf (remote url : Str) : Base := { remote := remote == ['1'], url := url }
+/-- `remote` = `1`: `url` is the URL as written in `external:` (the model normalises it itself);
+    `2`: the base is taken as it is (un-normalised, for `urljoin` alone); `0`: resolved local directory -/
+def baseOf (remote url : Str) : Base :=
+  if remote == ['1'] then remoteBase url
+  else { remote := remote == ['2'], url := url }
 
 def errOut (e : XErr) : List Str := ["err".toList, xerrName e]
 
@@ -210,6 +214,13 @@ def dispatchC16 : List Str → Option (List Str)
     else if cmd == "c16.rebase".toList then
       match args with
       | [rem, url, s] => some ["ok".toList, rebase (baseOf rem url) (afterFirstSlash s)]
+      | _ => some ["bad-request".toList]
+    else if cmd == "c16.index".toList then
+      -- c16.index <written url>  ->  is it remote, the URL fetched, the base handed to dict2obj
+      match args with
+      | [u] =>
+        if isRemote u then some ["ok".toList, ['1'], indexUrl u, (remoteBase u).url]
+        else some ["ok".toList, ['0'], ['-'], ['-']]   -- a local path: nothing is fetched through urlopen
       | _ => some ["bad-request".toList]
     else if cmd == "c16.use".toList then
       -- c16.use <name> <nLocal> (name ext)* <nExt> (name ext)*
